@@ -323,6 +323,137 @@ def evaluate(sim, ops, results, maxsize, mixed=False):
     return viols, n_cb, contents
 
 
+def version_scenario(repo, seed, sub):
+    """Code versions and `ReplList.__setitem__` (the only `@replicated(ver=1)` battery method).
+    Expectation, from the code-version semantics (C17) and from what the code does: while version 0 is enabled
+    `lst[i] = x` is NOT callable -- `_getFuncName` has no name for it and the call raises KeyError at the caller,
+    nothing is replicated; after `setCodeVersion(1)` has been applied, `lst[i] = x` behaves like `list.__setitem__`
+    when issued on ANY node, in particular on a node whose state was REBUILT from a snapshot taken after the switch
+    (its version table has to be rebuilt with the restored version)."""
+    import random
+    rng = random.Random("%d/%d/version" % (seed, sub))
+    sim = make_sim(repo, seed * 1000 + 500 + sub, 0)
+    sim.connect_all()
+    L = sim.elect()
+    info = {"kind": "version", "sub": sub}
+    if L is None:
+        return [], dict(info, note="no leader"), {}
+    F, S = [i for i in sim.voters if i != L]
+    sim.run(4)
+    mimic = []
+    viols, cov = [], {}
+    results = {}
+    counter = [0]
+
+    def count(k):
+        cov[k] = cov.get(k, 0) + 1
+
+    def call(node, name, *args):
+        """replicated list call from `node`; returns ('ok', result) | ('raised', ExcName) | ('no-callback',)"""
+        counter[0] += 1
+        k = counter[0]
+
+        def cb(res, err, k=k):
+            results[k] = (res, err)
+        n_err = len(sim.errors)
+        sim._call(node, getattr(sim.objs[node].bat["list"], name), *args, callback=cb)
+        if len(sim.errors) > n_err and k not in results:
+            return ("raised", sim.errors[-1][1])
+        for _ in range(40):
+            if k in results:
+                break
+            sim.run(1, among=[i for i in sim.voters if (node, i) in sim.up or i == node] or None)
+        if k not in results:
+            return ("no-callback",)
+        res, err = results[k]
+        if err == 0 and isinstance(res, BaseException):
+            return ("raised", type(res).__name__)
+        return ("ok", res) if err == 0 else ("failed", err)
+
+    def ref(name, *args):
+        try:
+            return ("ok", getattr(mimic, name)(*args))
+        except (IndexError, ValueError, TypeError) as e:
+            return ("raised", type(e).__name__)
+
+    def expect_same(node, where, name, *args):
+        got, want = call(node, name, *args), ref(name, *args)
+        if repr(got) != repr(want):
+            viols.append({"signature": "batteries.ReplList.%s:differs-from-builtin:%s" % (name, got[1] if got[0] == "raised" else got[0] if got[0] != "ok" else "value"),
+                          "what": "%s: ReplList.%s%r issued on node %s -> %r; list given the same call -> %r (list before: %r)"
+                                  % (where, name, args, node, got, want, mimic)})
+            return False
+        return True
+
+    # 1. some contents (version 0)
+    for x in [rng.choice(bo.VALS) for _ in range(rng.randrange(3, 7))]:
+        expect_same(rng.choice([L, F, S]), "version 0", "append", x)
+    # 2. before the switch: lst[i] = x is refused at the caller on every node, nothing changes
+    for node in (L, F, S):
+        got = call(node, "__setitem__", 0, 99)
+        count("setitem-before-switch")
+        if got != ("raised", "KeyError"):
+            viols.append({"signature": "batteries.ReplList.__setitem__:callable-before-version-enabled",
+                          "what": "version 0 enabled on %s (getCodeVersion()=%r): ReplList.__setitem__(0, 99) -> %r; a ver=1 method is "
+                                  "not callable before setCodeVersion(1): expected KeyError at the caller"
+                                  % (node, sim.objs[node].getCodeVersion(), got)})
+    sim.run(2)
+    # 3. S partitioned; switch to version 1; use __setitem__ on L and F; compact
+    sim.disconnect(S, L)
+    sim.disconnect(S, F)
+    done = {}
+    sim._call(L, sim.objs[L].setCodeVersion, 1, lambda res, err: done.setdefault("v", (res, err)))
+    for _ in range(40):
+        if "v" in done and all(sim.objs[i].getCodeVersion() == 1 for i in (L, F)):
+            break
+        sim.run(1, among=[L, F])
+    info["setCodeVersion"] = repr(done.get("v"))
+    info["versions_after_switch"] = dict((i, sim.objs[i].getCodeVersion()) for i in sim.voters)
+    if not all(sim.objs[i].getCodeVersion() == 1 for i in (L, F)):
+        return viols, dict(info, note="switch did not take effect"), cov
+    for _ in range(rng.randrange(2, 6)):
+        node = rng.choice([L, F])
+        if rng.random() < 0.6:
+            if expect_same(node, "after the switch", "__setitem__", rng.randrange(-len(mimic), len(mimic)), rng.choice(bo.VALS)):
+                count("setitem-after-switch-live-node")
+        else:
+            expect_same(node, "after the switch", "append", rng.choice(bo.VALS))
+    sim.compact(L)
+    sim.compact(F)
+    sim.run(4, among=[L, F])
+    s_last = sim.last_index(S)
+    # 4. S rejoins and is rebuilt from the snapshot (contents AND enabled version)
+    sim.connect(S, L)
+    sim.connect(S, F)
+    sim.run(14)
+    rebuilt = sim.P(S, "raftLog")[0][1] > s_last
+    info["rebuilt_from_snapshot"] = rebuilt
+    info["versions_after_rejoin"] = dict((i, sim.objs[i].getCodeVersion()) for i in sim.voters)
+    if sim.leader() is None:
+        sim.elect()
+    order = [S, L, F, S]
+    for node in order:
+        where = "node %s%s, version %r enabled" % (node, " REBUILT from a snapshot taken after setCodeVersion(1)" if node == S and rebuilt else "",
+                                                    sim.objs[node].getCodeVersion())
+        if expect_same(node, where, "__setitem__", rng.randrange(-len(mimic), len(mimic)), rng.choice(bo.VALS)) and node == S and rebuilt:
+            count("setitem-on-node-rebuilt-from-snapshot-after-switch")
+        elif node == S and rebuilt:
+            count("setitem-on-node-rebuilt-from-snapshot-after-switch")
+    expect_same(S, "after rejoin", "__setitem__", len(mimic), 1)       # IndexError like the list, on every replica
+    sim.run(6)
+    for i in sim.voters:
+        have = list(sim.objs[i].bat["list"].rawData())
+        if have != mimic and not viols:
+            viols.append({"signature": "batteries.ReplList:replica-contents-differ-from-builtin",
+                          "what": "replica %s holds %r; list given the same operations holds %r" % (i, have, mimic)})
+        if sim.objs[i].getCodeVersion() != 1 and not viols:
+            viols.append({"signature": "batteries.cluster:code-version-not-restored",
+                          "what": "replica %s reports getCodeVersion()=%r after the cluster switched to 1" % (i, sim.objs[i].getCodeVersion())})
+    for v in viols:
+        v["replay"] = {"kind": "version", "sub": sub}
+    return viols, info, cov
+
+
 def one(repo, seed, sub, n_ops, maxsize, mixed=False):
     import random
     rng = random.Random("%d/%d/cluster" % (seed, sub))
@@ -367,6 +498,19 @@ def run(ctx):
                 viols.append(x)
         if time.time() - t0 > ctx.budget_s * 0.6:
             break
+    cov["code_version"] = {"schedules": 0}
+    for sub in range(ctx.scale(8, 150)):
+        v, info, vc = version_scenario(ctx.repo, ctx.seed, sub)
+        cov["code_version"]["schedules"] += 1
+        cov["schedules"] += 1
+        for k_, n_ in vc.items():
+            cov["code_version"][k_] = cov["code_version"].get(k_, 0) + n_
+        distinct.add("version/%d/%d" % (ctx.seed, sub))
+        if sub == 0:
+            samples.append(info)
+        for x in v:
+            if not any(y["signature"] == x["signature"] for y in viols):
+                viols.append(x)
     res = {"cases": cov["schedules"], "distinct": len(distinct), "coverage": cov, "samples": samples,
            "disagreements": [], "violations": viols[:5], "wall_s": round(time.time() - t0, 2),
            "notes": "private attributes read: _SyncObj__raftLog (via sim.P) and those of corr.batteries_ops"}
@@ -375,6 +519,9 @@ def run(ctx):
             "keyword-then-method-lacking-the-keyword", "keyword-then-other-battery", "set.pop:only-unordered-members"]
     if cov["snapshot_installs"] == 0 and not viols:
         res["inconclusive"] = "no schedule made the straggler install a snapshot"
+    elif not viols and [f for f in ("setitem-before-switch", "setitem-after-switch-live-node",
+                                    "setitem-on-node-rebuilt-from-snapshot-after-switch") if not cov["code_version"].get(f)]:
+        res["inconclusive"] = "coverage floor missed (code version schedules): %r" % (cov["code_version"],)
     elif [f for f in need if not forms.get(f)] and not viols:
         res["inconclusive"] = "coverage floor missed: " + ", ".join(f for f in need if not forms.get(f))
     return res
@@ -382,5 +529,8 @@ def run(ctx):
 
 def replay(ctx, violation):
     r = violation.get("replay", {})
+    if r.get("kind") == "version":
+        v, info, vc = version_scenario(ctx.repo, ctx.seed, r.get("sub", 0))
+        return {"violated": any(x["signature"] == violation["signature"] for x in v), "violations": v, "info": info}
     v, info, n_cb, ops = one(ctx.repo, ctx.seed, r.get("sub", 0), r.get("n_ops", 60), r.get("maxsize", 0), r.get("mixed", False))
     return {"violated": any(x["signature"] == violation["signature"] for x in v), "violations": v, "info": info}
